@@ -48,11 +48,11 @@ cases, meta, hist = [], [], {}
 ok_runs = 0
 
 
-def run(kind, schema, zslots, ttl=172800, desc=None, strict=True):
+def run(kind, schema, zslots, ttl=172800, desc=None, strict=True, mods=None, ksks=None):
     global ok_runs
     rq = skrgen.honest_request(f"req-{R.randrange(10**6)}", NOW, len(zslots), zslots, ksrxml.default_zsk_policy(), sign=True)
     rq["serial"] = R.randrange(1000)
-    sc = {"modules": MODS, "ksks": KSKS, "schema": schema, "request": rq, "ttl": ttl, "strict": strict}
+    sc = {"modules": mods or MODS, "ksks": ksks or KSKS, "schema": schema, "request": rq, "ttl": ttl, "strict": strict}
     r = S.run_sign(sc)
     exp = S.expect(sc)
     impl = r["impl"]
@@ -123,6 +123,15 @@ for nb in ([2, 3, 9] if TIER == "quick" else range(1, 10)):
         run("multi-slot-" + style, schema, zsl, ttl=R.choice([172800, 300]))
 run("revoke-tag-carry", {1: {"publish": ["ksk_rc", "ksk_ec"], "sign": ["ksk_rc"], "revoke": []}, 2: {"publish": ["ksk_ec"], "sign": ["ksk_rc", "ksk_ec"], "revoke": ["ksk_rc"]},
                          3: {"publish": ["ksk_ec"], "sign": ["ksk_ec"], "revoke": []}}, [[ZEC], [ZEC], [ZEC]])
+# the token is what counts, every time: the same labels backed by other key material in the next ceremony of the same process
+K_OTHER = {"ksk_a": ksrxml.mk_key(P.rsa(1024, 65537, 108), alg=8, flags=257, ident="Ka"), "ksk_b": ksrxml.mk_key(P.rsa(1024, 65537, 109), alg=8, flags=257, ident="Kb")}
+P.save()
+MODS_OTHER = [[{"id": 0, "objs": sum((S.pair(k["id"], k) for k in K_OTHER.values()), [])}]]
+KSKS_OTHER = {n: ceremony.ksk_def(k) for n, k in K_OTHER.items()}
+for rnd in range(2):
+    sch = {1: {"publish": ["ksk_a", "ksk_b"], "sign": ["ksk_a"], "revoke": []}, 2: {"publish": ["ksk_b"], "sign": ["ksk_a", "ksk_b"], "revoke": ["ksk_a"]}}
+    run("same-labels-first-token", sch, [[Z[0]], [Z[0]]])
+    run("same-labels-other-token", sch, [[Z[0]], [Z[0]]], mods=MODS_OTHER, ksks=KSKS_OTHER)
 # schema missing a slot
 run("schema-missing-slot", {1: {"publish": ["ksk_a"], "sign": ["ksk_a"], "revoke": []}}, [[Z[0]], [Z[0]]])
 
